@@ -284,6 +284,23 @@ def observe_message(real: Real, case: dict, prescribed: list) -> list:
         trace.append(_wire_event('ser', m, msg.serialize()))
     except Exception as exc:
         trace.append(_exc('ser', exc))
+    # encode into a buffer that already holds something (serialize_into is the append-style API):
+    # nothing, a few foreign bytes, or a previous frame (a batch)
+    if msg is not None:
+        prefix = (b'', bytes(case['key']), bytes(case['key'][:1]) * 9, fed)[(case['key'][0] + case['key'][3]) % 4]
+        try:
+            buf = bytearray(prefix)
+            if m['compressed']:
+                msg.serialize_into(buf, compress=True)
+            else:
+                msg.serialize_into(buf)
+            ev = _wire_event('into', m, bytes(buf[len(prefix):]))     # (inflates the appended part of a compressed class)
+            if ev.get('ok'):
+                ev['bytes'] = list(buf)
+                ev['prefix'] = list(prefix)
+            trace.append(ev)
+        except Exception as exc:
+            trace.append(_exc('into', exc))
     # decode: class method, family dispatcher
     try:
         trace.append(_value_event('class', q, cls, m, pin, cls.deserialize(0, fed)))
@@ -725,6 +742,176 @@ def observe_conn(real: Real, case: dict) -> list:
 
 
 # ---------------------------------------------------------------------------
+# histories of ONE message object: sent, changed, sent again (messages are mutable dataclasses)
+# ---------------------------------------------------------------------------
+
+HIST_CLASSES = ['DistributedSearchRequest.Request', 'PrivateChatMessageUsers.Request', 'PeerTransferRequest.Request',
+                'FileSearch.Request', 'PeerInit.Request', 'PeerSearchReply.Request', 'ConnectToPeer.Request',
+                'PeerUserInfoReply.Request', 'SetListenPort.Request', 'DistributedBranchLevel.Request',
+                'ExecuteCommand.Request', 'PeerDirectoryContentsReply.Request']
+
+
+def hist_cases(pin: dict, rng, thorough: bool) -> list:
+    """Each case: a class and the successive abstract values of one object.  Step i is sent over
+    connection conns[i] ('p' plain / 'o' obfuscated, index = which connection object); fresh[i] says
+    that a different object of equal value is sent instead."""
+    gen = L.Gen(pin, rng)
+    out = []
+    classes = [q for q in HIST_CLASSES if q in pin['messages']]
+    if not thorough:
+        classes = classes[:7]
+    schedules = [['p1', 'p1', 'p1', 'p1', 'p1'], ['o1', 'o1', 'o1', 'o1', 'o1'], ['p1', 'o2', 'p1', 'p2', 'o2'],
+                 ['p1', 'p2', 'p2', 'p1', 'p1']]
+    for ci, q in enumerate(classes):
+        m = pin['messages'][q]
+        for rep in range(3 if thorough else 1):
+            variants = gen.variants(q)
+            var = variants[-1]                      # every optional present: more to change
+            v0 = gen.message(q, var, None)
+            steps = [v0]
+            for _ in range(60):
+                if len(steps) >= 4:
+                    break
+                prev = steps[-1]
+                cand = json.loads(json.dumps(prev))
+                names = [f['name'] for f in m['fields'] if f['name'] in cand and f['cond'] == 'none'
+                         and not any(g['on'] == f['name'] for g in m['fields'])]
+                if not names:
+                    break
+                name = rng.choice(names)
+                f = next(f for f in m['fields'] if f['name'] == name)
+                if f['type'] == 'array' and rng.random() < 0.7:
+                    cand[name] = cand[name] + [gen.value(f['subtype'], 'none', None, 1)]        # append in place
+                else:
+                    cand[name] = gen.value(f['type'], f['subtype'], None)
+                if all(json.dumps(cand, sort_keys=True) != json.dumps(x, sort_keys=True) for x in steps):
+                    steps.append(cand)
+            if len(steps) < 2:
+                continue
+            steps = steps + [steps[-1], steps[0]]      # an equal value again (other object), then back to the first
+            sched = list(schedules[(ci + rep) % len(schedules)])
+            if m['compressed']:
+                sched = [c.replace('o', 'p') for c in sched]
+            sched = (sched * 2)[:len(steps)]
+            fresh = [False] * len(steps)
+            fresh[len(steps) - 2] = True
+            out.append(dict(kind='hist', cls=q, steps=steps, conns=sched, fresh=fresh,
+                            how='send' if (ci + rep) % 2 == 0 else 'encode', key=[1, 2, 3, 4]))
+    return out
+
+
+def _mutate(obj, m, old: dict, new: dict, pin: dict):
+    """Bring the real message object from abstract value `old` to `new` the way application code
+    would: assign attributes; lists that only grew are appended to in place."""
+    for f in m['fields']:
+        name = f['name']
+        a, b = old.get(name), new.get(name)
+        if a == b:
+            continue
+        if f['type'] == 'array' and a is not None and b is not None and b[:len(a)] == a and len(b) > len(a):
+            lst = getattr(obj, name)
+            for x in b[len(a):]:
+                lst.append(L.to_real(f['subtype'], 'none', x, pin))
+        else:
+            setattr(obj, name, None if b is None else L.to_real(f['type'], f['subtype'], b, pin))
+
+
+def observe_hist(real: Real, case: dict) -> list:
+    import asyncio
+    from unittest.mock import AsyncMock, Mock
+    from .. import vloop
+    pin = real.pin
+    q = case['cls']
+    m = pin['messages'][q]
+    trace = [dict(ev='histcase', cls=q, conns=case['conns'], fresh=case['fresh'], how=case['how'], steps=case['steps'])]
+    cls = L.find_class(q)
+    if cls is None:
+        trace.append(dict(ev='missing', ok=False, exc='pinned message class not defined by the code'))
+        return trace
+    can_decode = not (m['family'] == 'server' and m['direction'] == 'Request')
+
+    def network():
+        nw = Mock()
+        nw.on_state_changed = AsyncMock()
+        nw.on_peer_accepted = AsyncMock()
+        nw.on_message_received = AsyncMock()
+        return nw
+
+    def make_conn(obf):
+        C = real.C
+        if m['family'] == 'server':
+            return C.ServerConnection('server.sim', 2416, network(), obfuscated=obf)
+        ctype = C.PeerConnectionType.DISTRIBUTED if m['family'] == 'distributed' else C.PeerConnectionType.PEER
+        c = C.PeerConnection('1.2.3.4', 1234, network(), obfuscated=obf, connection_type=ctype)
+        c.connection_state = (C.PeerConnectionState.AWAITING_INIT if m['family'] == 'peerinit'
+                              else C.PeerConnectionState.ESTABLISHED)
+        return c
+
+    async def main(loop):
+        writers = []
+
+        async def open_connection(host=None, port=None, **kw):
+            await asyncio.sleep(0)
+            end = (asyncio.StreamReader(limit=2 ** 27), _GateWriter(loop, 1 << 40))
+            writers.append(end[1])
+            return end
+
+        orig = asyncio.open_connection
+        asyncio.open_connection = open_connection
+        try:
+            conns = {}
+            for name in sorted(set(case['conns'])):
+                c = make_conn(name[0] == 'o')
+                await c.connect()
+                conns[name] = (c, writers[-1])
+            receivers = {True: make_conn(True), False: make_conn(False)}
+            obj = cls(**L.message_kwargs(q, case['steps'][0], pin))
+            cur = case['steps'][0]
+            for i, v in enumerate(case['steps']):
+                if v != cur:
+                    try:
+                        _mutate(obj, m, cur, v, pin)
+                    except Exception as exc:          # the harness could not change the object: not an observation
+                        raise MachineryFailure(f'cannot mutate {q}: {exc!r}')
+                    cur = v
+                sent_obj = cls(**L.message_kwargs(q, v, pin)) if case['fresh'][i] else obj
+                conn, writer = conns[case['conns'][i]]
+                obf = case['conns'][i][0] == 'o'
+                try:
+                    if case['how'] == 'encode':
+                        data = conn.encode_message_data(sent_obj)
+                    else:
+                        before = len(writer.stream)
+                        await conn.send_message(sent_obj)
+                        data = bytes(writer.stream[before:])
+                except Exception as exc:
+                    trace.append(_exc('hsend', exc))
+                    break
+                ev = _wire_event('hsend', m, data) if not obf else (
+                    dict(ev='hsend', ok=True, bytes=list(data), zok=True, inflated=[]) if isinstance(data, (bytes, bytearray))
+                    else dict(ev='hsend', ok=False, exc=f'not bytes: {type(data).__name__}'))
+                ev['obf'] = obf
+                ev['v'] = v
+                ev['conn'] = case['conns'][i]
+                trace.append(ev)
+                if can_decode and ev.get('ok'):
+                    try:
+                        got = receivers[obf].decode_message_data(bytes(data))
+                        name = q if type(got) is cls else f'{type(got).__module__}.{type(got).__qualname__}'
+                        a = L.record_to_abstract(m['fields'], got, pin)
+                        trace.append(dict(ev='hrecv', ok=True, cls=name, v=v, got=a))
+                    except L.ShapeError as exc:
+                        trace.append(dict(ev='hrecv', ok=False, exc=f'result not of the pinned shape: {exc}'[:200]))
+                    except Exception as exc:
+                        trace.append(_exc('hrecv', exc))
+        finally:
+            asyncio.open_connection = orig
+
+    vloop.run(main)
+    return trace
+
+
+# ---------------------------------------------------------------------------
 
 def _fingerprint(tid, info, trace):
     ev = info.get('event') or {}
@@ -733,6 +920,8 @@ def _fingerprint(tid, info, trace):
         subject = f"connection:{first.get('family')}:{'obfuscated' if first.get('obf') else 'plain'}:{first.get('mode')}"
     elif first.get('ev') == 'gcase':
         subject = f"{first.get('cls')}:giant"
+    elif first.get('ev') == 'histcase':
+        subject = f"{first.get('cls')}:object-sent-again"
     else:
         subject = first.get('cls', 'obfuscation')
     what = ev.get('ev', '?') + (f":{ev['via']}" if 'via' in ev else '')
@@ -791,13 +980,16 @@ def _run(chk: Check, pin: dict, tmp: str, per_class: int, keys_per_len: int, tho
             anchors = json.load(fh)
     if replay_case is None:
         # the few big cases first: they are part of the first batch (and of its self-test)
-        cases = giant_cases(thorough) + conn_cases(thorough) + build_cases(chk, pin, per_class, keys_per_len)
+        cases = (giant_cases(thorough) + conn_cases(thorough)
+                 + hist_cases(pin, __import__('random').Random(chk.seed + 31), thorough)
+                 + build_cases(chk, pin, per_class, keys_per_len))
     else:
         cases = [replay_case]
     nmsg = sum(1 for c in cases if c['kind'] == 'msg')
-    nk = {k: sum(1 for c in cases if c['kind'] == k) for k in ('obf', 'giant', 'conn')}
+    nk = {k: sum(1 for c in cases if c['kind'] == k) for k in ('obf', 'giant', 'conn', 'hist')}
     chk.log(f'{len(cases)} cases ({nmsg} message values over {len(pin["messages"])} classes, {nk["obf"]} obfuscation '
-            f'vectors, {nk["giant"]} giant compressed payloads, {nk["conn"]} concurrent-send scenarios), '
+            f'vectors, {nk["giant"]} giant compressed payloads, {nk["conn"]} concurrent-send scenarios, '
+            f'{nk["hist"]} send-change-send histories), '
             f'{len(anchors)} hand-written anchors')
     chk.cov['giant_payload_cases'] = [f"{c['cls']}: {c.get('note', '')} (K={c['K']})" for c in cases if c['kind'] == 'giant']
     chk.cov['connection_scenarios'] = [
@@ -834,11 +1026,13 @@ def _run(chk: Check, pin: dict, tmp: str, per_class: int, keys_per_len: int, tho
                 tr = observe_obf(real, c, prescribed[i])
             elif c['kind'] == 'giant':
                 tr = observe_giant(real, c, prescribed[i], thorough)
+            elif c['kind'] == 'hist':
+                tr = observe_hist(real, c)
             else:
                 tr = observe_conn(real, c)
             traces.append(tr)
             chk.count(_trace_key(tr))
-        chk.cov['byte_and_value_comparisons'] += sum(1 for tr in traces for e in tr[1:] if e['ev'] not in ('fed', 'obffed', 'gfed'))
+        chk.cov['byte_and_value_comparisons'] += sum(1 for tr in traces for e in tr[1:] if e['ev'] not in ('fed', 'obffed', 'gfed', 'histcase'))
         if base == 0:
             for i in (0, len(traces) // 3, len(traces) // 2, len(traces) - 1, min(8, len(traces) - 1)):
                 chk.sample([_shorten(e) for e in traces[i][:4]])
@@ -951,6 +1145,16 @@ def selftest(chk: Check, traces: list, v) -> dict:
     for tid, i in pick(lambda tr, e: e['ev'] == 'gser' and e.get('ok'), 1):
         tr = copy.deepcopy(traces[tid - 1]); tr[i]['sum']['len'] += 1; bad.append(tr); kinds.append('giant-length')
         tr = copy.deepcopy(traces[tid - 1]); tr[i]['sum']['periodic'] = False; bad.append(tr); kinds.append('giant-not-periodic')
+    # (h) a re-send that wrote the bytes of the object's earlier value; a buffer whose old contents were touched
+    for tid, _ in pick(lambda tr, e: e['ev'] == 'histcase', 3):
+        tr = copy.deepcopy(traces[tid - 1])
+        hs = [j for j, e in enumerate(tr) if e['ev'] == 'hsend' and e.get('ok') and not e['obf']]
+        pair = next(((a, b) for a in hs for b in hs if a < b and tr[a]['bytes'] != tr[b]['bytes']), None)
+        if pair:
+            tr[pair[1]]['bytes'] = list(tr[pair[0]]['bytes']); tr[pair[1]]['inflated'] = list(tr[pair[0]]['inflated'])
+            bad.append(tr); kinds.append('stale-resend')
+    for tid, i in pick(lambda tr, e: e['ev'] == 'into' and e.get('ok') and len(e['prefix']) >= 4, 2):
+        tr = copy.deepcopy(traces[tid - 1]); tr[i]['bytes'][0] = (tr[i]['bytes'][0] + 1) % 256; bad.append(tr); kinds.append('into-prefix-touched')
     # (e) an exception event
     for tid, i in pick(lambda tr, e: e['ev'] == 'ser' and e.get('ok'), 1):
         tr = copy.deepcopy(traces[tid - 1]); tr[i] = dict(ev='ser', ok=False, exc='struct.error'); bad.append(tr); kinds.append('exception')
@@ -1056,6 +1260,8 @@ def replay(chk: Check, data: dict):
         case = dict(kind='msg', cls=first['cls'], v=first['v'], key=[1, 2, 3, 4])
     elif first['ev'] == 'gcase':
         case = dict(kind='giant', **{k: first[k] for k in ('cls', 'rest', 'rep', 'elem', 'K')})
+    elif first['ev'] == 'histcase':
+        case = dict(kind='hist', key=[1, 2, 3, 4], **{k: first[k] for k in ('cls', 'steps', 'conns', 'fresh', 'how')})
     elif first['ev'] == 'conncase':
         case = dict(kind='conn', key=[1, 2, 3, 4], **{k: first[k] for k in ('obf', 'msgs', 'family', 'mode', 'hw')})
     else:
